@@ -46,49 +46,61 @@ theorem lookupName_erase_ne (l : List (Name × UInt64)) (n r : Name) (h : n ≠ 
 
 /-- How the value of caller register `r` (as `Caller.get` sees it) changes when the rule
     `p = (label, expr)` is processed: untouched unless the label denotes `r`; then the rule's
-    value if it evaluates (and fits the register), unknown if it fails. -/
+    value if it evaluates and fits the register, unknown otherwise. -/
 def upd (w : Walker) (cfa : UInt64) (r : Name) (cur : Option UInt64) (p : Name × Expr) : Option UInt64 :=
   if w.memo p.1 = some r then
     match evalCfi w.env (some cfa) p.2 with
-    | some v => if w.fits v then some v else cur
+    | some v => if w.fits v then some v else none
     | none => none
   else cur
+
+theorem get_clearReg (w : Walker) (c : Caller) (n r : Name) :
+    lookupName (w.clearReg c n).regs r = if w.memo n = some r then none else lookupName c.regs r := by
+  simp only [Walker.clearReg]
+  cases hm : w.memo n with
+  | none => simp
+  | some m =>
+    by_cases hmr : m = r
+    · subst hmr; simp [lookupName_erase_same]
+    · simp [hmr, lookupName_erase_ne _ _ _ hmr]
+
+theorem clearReg_cfa_ra (w : Walker) (c : Caller) (n : Name) :
+    (w.clearReg c n).cfa = c.cfa ∧ (w.clearReg c n).ra = c.ra := by
+  simp only [Walker.clearReg]
+  cases w.memo n <;> simp
 
 theorem get_applyOther (w : Walker) (cfa : UInt64) (c : Caller) (p : Name × Expr) (r : Name) :
     (applyOther w cfa c p).get r = upd w cfa r (c.get r) p := by
   unfold applyOther upd Caller.get
   cases he : evalCfi w.env (some cfa) p.2 with
   | none =>
-    simp only [Walker.clearReg]
-    cases hm : w.memo p.1 with
-    | none => simp
-    | some m =>
-      by_cases hmr : m = r
-      · subst hmr; simp [lookupName_erase_same]
-      · simp [hmr, lookupName_erase_ne _ _ _ hmr]
+    simp only [get_clearReg]
   | some v =>
     simp only [Walker.setReg]
     cases hm : w.memo p.1 with
-    | none => simp
+    | none => simp [get_clearReg, hm]
     | some m =>
       by_cases hf : w.fits v = true
       · by_cases hmr : m = r
         · subst hmr; simp [hf, lookupName_cons]
         · simp [hf, hmr, lookupName_cons, lookupName_erase_ne _ _ _ hmr]
-      · simp [hf]
+      · by_cases hmr : m = r
+        · subst hmr; simp [hf, get_clearReg, hm]
+        · simp [hf, get_clearReg, hm, hmr]
 
 theorem applyOther_cfa_ra (w : Walker) (cfa : UInt64) (c : Caller) (p : Name × Expr) :
     (applyOther w cfa c p).cfa = c.cfa ∧ (applyOther w cfa c p).ra = c.ra := by
   unfold applyOther
   cases evalCfi w.env (some cfa) p.2 with
-  | none =>
-    simp only [Walker.clearReg]
-    cases w.memo p.1 <;> simp
+  | none => exact clearReg_cfa_ra w c p.1
   | some v =>
     simp only [Walker.setReg]
     cases w.memo p.1 with
-    | none => simp
-    | some m => by_cases hf : w.fits v = true <;> simp [hf]
+    | none => exact clearReg_cfa_ra w c p.1
+    | some m =>
+      by_cases hf : w.fits v = true
+      · simp [hf]
+      · simp only [hf, Bool.false_eq_true, if_false]; exact clearReg_cfa_ra w c p.1
 
 theorem get_foldl_applyOther (w : Walker) (cfa : UInt64) (l : List (Name × Expr)) (c : Caller) (r : Name) :
     (l.foldl (applyOther w cfa) c).get r = l.foldl (upd w cfa r) (c.get r) := by
@@ -123,9 +135,6 @@ theorem upd_idem (w : Walker) (cfa : UInt64) (r : Name) (cur : Option UInt64) (p
   unfold upd
   by_cases hm : w.memo p.1 = some r
   · simp only [hm, if_true]
-    cases evalCfi w.env (some cfa) p.2 with
-    | none => rfl
-    | some v => by_cases hf : w.fits v = true <;> simp [hf]
   · simp [hm]
 
 /-- If `p` is the only rule of `l` whose label denotes `r`, folding `upd` over `l` is `upd` at `p`. -/
@@ -491,6 +500,10 @@ theorem foldO_applyOtherO (w : Walker) (cfa : UInt64) (evalEq : ∀ e, evalCfiO 
     simp only [List.map_cons, foldO, List.foldl_cons, applyOtherO, otherEntry, evalEq, applyOther]
     cases evalCfi w.env (some cfa) p.2 with
     | none => exact ih _
-    | some v => exact ih _
+    | some v =>
+      simp only []
+      cases w.setReg c p.1 v with
+      | none => exact ih _
+      | some c' => exact ih _
 
 end MdModel.Cfi
